@@ -34,6 +34,7 @@ func writeHeaderFile(env *dsl.Environment, options packaging.CppCodegenOptions) 
 #include <complex>
 #include <optional>
 #include <unordered_map>
+#include <utility>
 #include <variant>
 #include <vector>
 
